@@ -161,6 +161,38 @@ func syntaxCase(c *Ctx, spec string, ds *declSet) {
 		if pe.Pos < v.Lo || pe.Pos > v.Hi || pe.Pos > len(spec) {
 			c.Violation("C08", key+" (position)", cs(), fmt.Sprintf("error position within the offending lexeme [%d,%d] (%s)", v.Lo, v.Hi, v.Why), fmt.Sprintf("pos %d: %s", pe.Pos, pe.Msg))
 		}
+		// the rejection does not depend on the command line: a help request, or a declared version flag in first
+		// position, on a command whose spec is malformed still panics with the spec error and prints nothing of the kind
+		for vi, av := range [][]string{{"app", "-v"}, {"app", "--help"}} {
+			if vi == 0 && (strings.Contains(spec, "-v") || strings.Contains(spec, "OPTIONS")) {
+				continue // the version flag would itself be a declared option the spec may name
+			}
+			hooks2 := 0
+			app2 := cli.App("app", "")
+			app2.ErrorHandling = flag.ContinueOnError
+			for _, o := range ds.opts {
+				app2.Var(cli.VarOpt{Name: o, Value: &logVal{isFlag: true}})
+			}
+			for _, a := range ds.args {
+				app2.Var(cli.VarArg{Name: a, Value: &logVal{}})
+			}
+			if vi == 0 {
+				app2.Version("v version", "9.9.9-verif")
+			}
+			app2.Spec = spec
+			app2.Before = func() { hooks2++ }
+			app2.Action = func() { hooks2++ }
+			sharedBuf.Reset()
+			o2 := runDirect(&sharedBuf, func() error { return app2.Run(av) })
+			c.Count("rejected_specs_with_help_or_version_request", 1)
+			pe2 := (*specErr)(nil)
+			if o2.Panicked {
+				pe2 = asSpecErr(o2.PanicVal)
+			}
+			if pe2 == nil || pe2.Pos != pe.Pos || hooks2 != 0 {
+				c.Violation("C08", key+fmt.Sprintf(" argv=%q", av[1:]), Case{"spec": spec, "spec_hex": hx(spec), "decl": ds.name}, fmt.Sprintf("Run panics with the spec error at position %d whatever the command line", pe.Pos), fmt.Sprintf("panicked=%v value=%s returned=%v err=%v hooks=%d output=%q", o2.Panicked, safeSprint(o2.PanicVal), o2.Returned, o2.Err, hooks2, clip(sharedBuf.String(), 120)))
+			}
+		}
 		if c.WantSample("rejected:"+strings.SplitN(v.Why, ":", 2)[0]) && len(spec) >= 3 {
 			c.Sample("rejected:"+strings.SplitN(v.Why, ":", 2)[0], Case{"spec": spec, "decl": ds.name, "reference": fmt.Sprintf("%s at [%d,%d]", v.Why, v.Lo, v.Hi), "reported_pos": pe.Pos, "msg": pe.Msg})
 		}
@@ -181,4 +213,11 @@ func msgOf(pe *specErr) string {
 		return ""
 	}
 	return pe.Msg
+}
+
+func clip(s string, n int) string {
+	if len(s) > n {
+		return s[:n] + "..."
+	}
+	return s
 }
